@@ -109,4 +109,11 @@ theorem div_le_iff {a b c : Rat} (hb : 0 < b) : a / b ≤ c ↔ a ≤ c * b := b
 theorem le_div_iff {a b c : Rat} (hc : 0 < c) : a ≤ b / c ↔ a * c ≤ b := by
   rw [← Rat.not_lt, ← Rat.not_lt, Rat.div_lt_iff hc]
 
+/-- `a % m = a` for `0 ≤ a < m` (numpy's wrap-around of unsigned narrow integers is invisible below the
+type's range) -/
+theorem imod_of_lt (a m : Int) (h0 : 0 ≤ a) (h : a < m) : Py.imod a m = a := by
+  unfold Py.imod
+  rw [Int.fmod_eq_emod_of_nonneg _ (by omega)]
+  exact Int.emod_eq_of_lt h0 h
+
 end Py
